@@ -23,6 +23,14 @@ extern "C" {
 #include "verif.h"
 }
 
+/* harnesses that count the library's libc calls (C03) keep their own polling out of the count */
+#ifdef IPC_COMMON_REAL_POLL
+extern "C" int __real_poll(struct pollfd *, nfds_t, int);
+#define IPC_POLL __real_poll
+#else
+#define IPC_POLL poll
+#endif
+
 struct dentry { int fd; int events; void *data; qb_ipcs_dispatch_fn_t fn; int prio; };
 struct djob { void *data; qb_loop_job_dispatch_fn fn; int prio; };
 static std::vector<dentry> DISP;
@@ -59,7 +67,7 @@ static std::vector<std::pair<size_t, int>> ready_list(void)
 	std::vector<std::pair<size_t, int>> out;
 	for (size_t i = 0; i < DISP.size(); i++) {
 		struct pollfd p = { DISP[i].fd, (short)DISP[i].events, 0 };
-		if (poll(&p, 1, 0) > 0 && p.revents) out.push_back({ i, p.revents });
+		if (IPC_POLL(&p, 1, 0) > 0 && p.revents) out.push_back({ i, p.revents });
 	}
 	return out;
 }
@@ -100,7 +108,7 @@ static qb_ipcc_connection_t *client_connect(const char *name, size_t max_msg, in
 	if (!c) { *err = -errno; return NULL; }
 	for (int i = 0; i < 50; i++) {
 		struct pollfd p = { fd, POLLIN, 0 };
-		if (poll(&p, 1, 0) > 0) break;
+		if (IPC_POLL(&p, 1, 0) > 0) break;
 		if (!server_step(step_choice)) break;
 	}
 	int rc = qb_ipcc_connect_continue(c);	/* frees c on failure */
@@ -122,6 +130,22 @@ static int count_shm_entries(std::string *first = NULL)
 	DIR *d = opendir("/dev/shm"); struct dirent *e; int c = 0;
 	if (!d) return -1;
 	while ((e = readdir(d))) { if (!strcmp(e->d_name, ".") || !strcmp(e->d_name, "..")) continue; if (c == 0 && first) *first = e->d_name; c++; }
+	closedir(d);
+	return c;
+}
+/* regular files anywhere below /dev/shm (the per-connection directories themselves are not counted) */
+static int count_shm_files(std::string *first = NULL, const char *dir = "/dev/shm")
+{
+	DIR *d = opendir(dir); struct dirent *e; int c = 0;
+	if (!d) return 0;
+	while ((e = readdir(d))) {
+		if (!strcmp(e->d_name, ".") || !strcmp(e->d_name, "..")) continue;
+		std::string p = std::string(dir) + "/" + e->d_name;
+		struct stat st;
+		if (lstat(p.c_str(), &st)) continue;
+		if (S_ISDIR(st.st_mode)) c += count_shm_files(first, p.c_str());
+		else { if (c == 0 && first && first->empty()) *first = p; c++; }
+	}
 	closedir(d);
 	return c;
 }
